@@ -6,6 +6,7 @@ package fam_tunnel
 
 import (
 	"fmt"
+	"hash/fnv"
 	"math/rand"
 	"sort"
 	"strconv"
@@ -496,6 +497,10 @@ func (d *Driver) RunScript(sc tf.Script) {
 	w := d.w
 	ctx, _ := d.fb.Ctx.CacheContext()
 	r := &world.Run{W: w, Ctx: ctx, Height: d.fb.Height, Time: d.fb.Time, InBlock: true}
+	// x/tunnel reads block times in whole seconds only: block times get sub-second parts
+	hh := fnv.New64a()
+	hh.Write([]byte(sc.Hash()))
+	r.Fracs = world.FracsFor(hh.Sum64())
 	tunnelkeeper.VerifRouteHook = nil
 	s := &session{d: d, w: w, r: r, mode: "ok", drained: map[int]bool{}, inactive: map[int]bool{}, poolOff: map[int]int{}, c: sc.C}
 	app := w.App
